@@ -68,6 +68,10 @@ CFGS = {"69": [("equal-default", "equal"), ("equal-r7", "equal"), ("equal-prim",
                ("eq", "eq"), ("eq-identity", "eq"), ("string", "string"), ("string-sh", "string")],
         "125": [("equal-cmp", "equal"), ("eqv-cmp", "eqv"), ("eq-cmp", "eq"), ("string-cmp", "string"), ("equal-r7", "equal"), ("equal-prim", "equal"),
                 ("equal-hash", "equal"), ("eqv", "eqv"), ("eq", "eq"), ("string-sh", "string")]}
+# which equal? a table configuration ends up with: the primitive of (chibi) (C fast path of SRFI 69) or the
+# cycle-aware one of (scheme base) (general procedure path); only used to name findings on deeply nested keys
+PRED_IMPL = {("69", "equal-default"): "prim", ("69", "equal-prim"): "prim", ("69", "equal-r7"): "r7", ("69", "equal-hash"): "r7",
+             ("125", "equal-cmp"): "r7", ("125", "equal-r7"): "r7", ("125", "equal-hash"): "r7", ("125", "equal-prim"): "prim"}
 VALUE_CLS = {"int", "ratio", "cplx", "flo", "char", "sym", "bool", "null"}
 IDENT_CLS = {"sym", "bool", "null"}
 LOCATED_CLS = {"str", "bv", "pair", "vec"}
@@ -83,7 +87,13 @@ def term_events(cat, terms):
     """Term declarations for a trace: (events, local id map).  Line k of the trace declares term k."""
     order = cat.closure(terms)
     local = {t: i + 1 for i, t in enumerate(order)}
-    evs = [{"e": "Term", "id": local[t], "cls": t.cls, "kind": t.kind, "nan": t.nan, "g": cat.graph_json(t, local)} for t in order]
+    evs = []
+    for t in order:
+        ev = {"e": "Term", "id": local[t], "cls": t.cls, "kind": t.kind, "nan": t.nan, "sym": 0, "g": cat.graph_json(t, local)}
+        if t.nest is not None:      # symbolic deep term (Equiv!NestGraph / SameNest)
+            n = t.nest
+            ev.update(sym=1, nest={"shape": n["shape"], "k": n["k"], "leaf": local[n["leaf"]], "aux": [local[a] for a in n["aux"]]})
+        evs.append(ev)
     return evs, local
 
 
@@ -173,6 +183,26 @@ def equiv_batches(cat, chk):
     # long and deep structures
     batch([(t, i) for t in cat.big_terms for i in range(len(t.routes))], 0, "long-deep")
     batch([(t, i) for t in cat.wide_terms for i in range(len(t.routes))], 0, "wide")
+    # deeply nested data around every internal limit of the implementation (recursion depth 10000 of the C
+    # comparison, node bound 10000 of the fast path of (scheme base) equal?, and multiples): identical copies by
+    # different builders, the same depth with another innermost leaf, one level deeper
+    la, lb = cat.sym("a"), cat.sym("b")
+    if chk.thorough:
+        plan = [(s, d) for s in ("lt", "vf") for d in (9990, 9999, 10000, 10001, 10002, 10010, 19999, 20000, 20001, 49999, 50001, 99999, 100000, 100001, 150000)]
+        plan += [("car", d) for d in (9999, 10001, 20001, 100001)]
+    else:
+        plan = [("lt", 9999), ("lt", 10002), ("lt", 20000), ("vf", 10002), ("vf", 20000), ("car", 10002)]
+    for s, d in plan:
+        A, B_, C = cat.deep(s, d, la), cat.deep(s, d, lb), cat.deep(s, d + 1, la)
+        mem = [(A, 0), (A, 1 + (d % 2)), (B_, 0), (C, 1)]
+        if d <= 20001:
+            mem.append((cat.deep(s, d - 1, lb), 0))
+        batches.append({"id": len(batches) + 1, "bg": 0, "members": mem, "kind": "deep", "deep": d})
+    # small nests: the symbolic declaration against the same value declared as a graph
+    small = [(cat.deep("lt", 60, la), 0), (cat.deep("lt", 60, la), 2), (cat.nest_graph_60, 0), (cat.nest_graph_60, 1), (cat.deep("lt", 60, lb), 0),
+             (cat.deep("lt", 59, la), 0), (cat.deep("vf", 3, la), 0), (cat.deep("vf", 3, la), 1), (cat.deep("car", 3, la), 0), (cat.deep("car", 3, la), 1),
+             (cat.deep("lt", 3, la), 0), (cat.compound(("list", [("list", [("list", [la, cat.int_(1)], None), cat.int_(1)], None), cat.int_(1)], None)), 0)]
+    batch(small, 0, "deep-small")
     # cyclic data: every computation announced by Begin
     cyc = [(t, i) for t in cat.cyclic_terms for i in range(len(t.routes))] + [(t, 0) for t in cat.cyclic_contrast]
     lists = [m for m in cyc if m[0].cls == "pair" or m[0].nodes is None]
@@ -198,6 +228,8 @@ def equiv_program(cat, batches, local, inst0):
 
 
 def describe(t):
+    if t.nest is not None:
+        return "%s Nest(%s, %d, %s)" % (t.kind, t.nest["shape"], t.nest["k"], t.nest["leaf"].routes[0].expr)
     if t.nodes is None:
         c = t.canon
         if t.cls == "flo":
@@ -226,7 +258,7 @@ def equiv_key(rule, ta, ra, tb, rb, bwa=None, bwb=None):
     return "%s:distinct-%s-vs-%s" % (rule, ka, kb)
 
 
-def run_equiv_shard(build, sc, cat, shard_no, batches):
+def run_equiv_shard(build, sc, cat, shard_no, batches, timeout=240):
     """One chibi process + one TLC run.  Returns dict(trace, r, table, events, rc)."""
     terms = [t for b in batches for t, _ in b["members"]]
     tevs, local = term_events(cat, terms)
@@ -235,7 +267,7 @@ def run_equiv_shard(build, sc, cat, shard_no, batches):
     with open(prog, "w") as f:
         f.write(EQUIV_IMPORT + read(os.path.join(SCM, "c15_equiv.scm")) + text)
     outp = sc.file("equiv_%d.out" % shard_no)
-    rc, err = run_chibi(build, prog, outp, 240)
+    rc, err = run_chibi(build, prog, outp, timeout)
     trace = sc.file("equiv_%d.ndjson" % shard_no)
     assemble(trace, tevs, outp, rc)
     r = vlib.run_tlc("EquivTrace.tla", "EquivTrace.cfg", sc.path, env={"TRACE": trace}, workers=1, timeout=900, heap="3g")
@@ -251,10 +283,15 @@ def equiv_phase(chk, build, sc, cat):
     nshard = 12 if chk.thorough else 8
     shards = [[] for _ in range(nshard)]
     # spread by cost (instances squared), cyclic batches get shards of their own weight
-    for b in sorted(batches, key=lambda b: -len(b["members"]) ** 2 * (3 if b["bg"] else 1)):
+    for b in sorted((b for b in batches if "deep" not in b), key=lambda b: -len(b["members"]) ** 2 * (3 if b["bg"] else 1)):
         min(shards, key=lambda s: sum(len(x["members"]) ** 2 * (3 if x["bg"] else 1) for x in s)).append(b)
-    shards = [s for s in shards if s]
-    results = vlib.parallel(lambda a: run_equiv_shard(build, sc, cat, a[0] + 1, a[1]), list(enumerate(shards)), jobs=8)
+    # deep batches: shards of their own (a comparison costs time proportional to the depth), deepest first
+    dshards = [[] for _ in range(10 if chk.thorough else 3)]
+    for b in sorted((b for b in batches if "deep" in b), key=lambda b: -b["deep"]):
+        min(dshards, key=lambda s: sum(x["deep"] for x in s)).append(b)
+    jobs = [(s, 240) for s in shards if s] + [(s, 2400 if chk.thorough else 600) for s in dshards if s]
+    jobs.sort(key=lambda j: -j[1])
+    results = vlib.parallel(lambda a: run_equiv_shard(build, sc, cat, a[0] + 1, a[1][0], a[1][1]), list(enumerate(jobs)), jobs=10)
     same_seen, bad_hash = set(), set()   # same-term (term, routeA, routeB) observed / rejected by the hash rule
     stats = collections.Counter()
     findings = {}           # key -> dict
@@ -311,7 +348,7 @@ def equiv_phase(chk, build, sc, cat):
                 bad_hash.add((ta.id, ia, ib))
                 bad_hash.add((ta.id, ib, ia))
             f = findings.get(key)
-            size = len(rA.expr) + len(rB.expr) + (0 if ta.nodes is None else 1000)
+            size = len(rA.expr) + len(rB.expr) + (0 if ta.nodes is None and ta.nest is None else 1000)
             if f is None or size < f["size"]:
                 repro = "(let ((a %s) (b %s)) (list (equal? a b) (eqv? a b) (hash a) (hash b)))" % (rA.expr, rB.expr)
                 f = findings[key] = dict(key=key, count=f["count"] if f else 0, size=size, pair=(ta, ia, tb, ib), msg="%s rule of Equiv.tla rejected: A = %s via %s ; B = %s via %s ; recorded %s ; hashes %s / %s" % (
@@ -337,6 +374,10 @@ def equiv_phase(chk, build, sc, cat):
                 stats["answered-equal" if e["equal"] else "answered-not-equal"] += 1
                 if bgof[a[2]]:
                     stats["cyclic"] += 1
+                if a[0].nest is not None and b_[0].nest is not None and a[0].nest["k"] > 10000:
+                    stats["nested-deeper-than-10000"] += 1
+                    if e["a"] != e["b"] and a[0] is b_[0]:
+                        stats["nested-deeper-than-10000-equal-copies"] += 1
                 if e["equal"] and e["a"] != e["b"]:
                     stats["hash-compared"] += 1
                 if e["a"] != e["b"]:
@@ -350,7 +391,7 @@ def equiv_phase(chk, build, sc, cat):
                 chk.sample({"kind": "observation", "A": a[0].routes[a[1]].expr[:100], "B": b_[0].routes[b_[1]].expr[:100], "same_abstract_value": a[0] is b_[0],
                             "recorded": {k: e[k] for k in ("eq", "eqv", "equal", "pequal")}})
     chk.cov["equiv_observation_classes"] = dict(stats)
-    for k in ("same-value-different-route", "different-value", "same-instance", "answered-equal", "answered-not-equal", "cyclic", "hash-compared"):
+    for k in ("same-value-different-route", "different-value", "same-instance", "answered-equal", "answered-not-equal", "cyclic", "hash-compared", "nested-deeper-than-10000", "nested-deeper-than-10000-equal-copies"):
         if not stats.get(k):
             raise Broken("vacuous: no observation of class %s" % k)
     chk.cov["equiv_batches"] = len(batches)
@@ -628,6 +669,22 @@ def script_history(cat, chk, hno, fe, cfg, eqv, good, scripts):
     return dict(no=hno, fe=fe, cfg=cfg, eqv=eqv, insts=insts, ops=ops, origin="tlc-simulate")
 
 
+def deep_history(cat, hno, fe, cfg, shape, depth):
+    """Deeply nested keys in an equal? table: A by two builders, the same depth with another innermost leaf (B),
+    one level deeper (C).  A finite map keeps A, B, C apart and finds A by its other copy."""
+    la, lb = cat.sym("a"), cat.sym("b")
+    A, B_, C = cat.deep(shape, depth, la), cat.deep(shape, depth, lb), cat.deep(shape, depth + 1, la)
+    insts = [(A, 0), (A, 1), (B_, 0), (C, 1)]
+    ops = [("make", 1, cfg, "equal"), ("set", 1, 1, 11), ("size", 1), ("set", 1, 3, 22), ("size", 1), ("refd", 1, 2), ("refd", 1, 3), ("ref", 1, 1),
+           ("ex", 1, 4), ("reft", 1, 4), ("updd", 1, 4, 5, 7), ("size", 1), ("keys", 1), ("alist", 1), ("vals", 1), ("del", 1, 2), ("size", 1),
+           ("ex", 1, 1), ("refd", 1, 3), ("upd", 1, 3, 100), ("copy", 1, 2), ("set", 2, 1, 33), ("size", 2), ("size", 1), ("refd", 2, 3), ("refd", 2, 2),
+           ("fold", 2), ("merge", 1, 2), ("size", 1), ("refd", 1, 1)]
+    if fe == "125":
+        ops += [("intern", 1, 2, 44), ("intern", 1, 3, 55), ("count", 1, 33), ("pop", 1), ("size", 1), ("clear", 1), ("empty", 1)]
+    return dict(no=hno, fe=fe, cfg=cfg, eqv="equal", insts=insts, ops=ops, origin="deep-keys", single=True, deep=depth,
+                pred=PRED_IMPL[(fe, cfg)])
+
+
 def sexp(x):
     if isinstance(x, str):
         return json.dumps(x)
@@ -652,7 +709,7 @@ def run_history(build, sc, cat, hist, tag=""):
         f.write(read(os.path.join(SCM, "c15_map.scm")))
         f.write(history_program(cat, hist, local))
     outp = sc.file(name + ".out")
-    rc, err = run_chibi(build, prog, outp, 120)
+    rc, err = run_chibi(build, prog, outp, 1800 if hist.get("deep") else 120)
     trace = sc.file(name + ".ndjson")
     assemble(trace, tevs, outp, rc)
     r = vlib.run_tlc("MapTrace.tla", "MapTrace.cfg", sc.path, env={"TRACE": trace}, workers=1, timeout=600, heap="3g")
@@ -681,6 +738,17 @@ def map_phase(chk, build, sc, cat, good):
         hists.append(script_history(cat, chk, i + 1, fe, cfg, eqv, good, scripts[j:j + per]))
         nscript_h += 1
     chk.cov["map_histories_from_tlc_simulation"] = nscript_h
+    # deeply nested keys around the internal limits of the two equal? implementations
+    allcfg = (("69", "equal-default"), ("69", "equal-r7"), ("125", "equal-cmp"), ("125", "equal-prim"))
+    dplan = [("lt", 10002, allcfg)]
+    if chk.thorough:     # a comparison costs time proportional to the depth: the deepest keys on two SRFI 69 tables only
+        dplan += [("vf", 20000, allcfg), ("lt", 49999, allcfg), ("vf", 100001, allcfg[:2])]
+    ndeep = 0
+    for shape, depth, cfgs in dplan:
+        for fe, cfg in cfgs:
+            hists.append(deep_history(cat, len(hists) + 1, fe, cfg, shape, depth))
+            ndeep += 1
+    chk.cov["map_histories_with_deep_keys"] = ndeep
     findings = {}
     accepted = 0
     nops_total = 0
@@ -695,7 +763,7 @@ def map_phase(chk, build, sc, cat, good):
             res = run_history(build, sc, cat, cur, "_%d" % attempt)
             out.append(res)
             r = res["r"]
-            if r.ok:
+            if r.ok or cur.get("single"):
                 break
             ra = rejected_at(r)
             if not ra:
@@ -746,9 +814,18 @@ def map_phase(chk, build, sc, cat, good):
             tag = m.group(1) if m else ("%s:%s" % (ev.get("e"), r.violated or "structure"))
             key = "map:" + tag
             kterm = None
+            if not m and res["rc"] != 0 and ev.get("e") in ("Exit", "Garbled"):
+                # the interpreter died (signal) or stopped (timeout, error exit) in the middle of the history
+                nxt = idx - res["nterm"] - len(hist["insts"])
+                opn = hist["ops"][nxt][0] if 0 <= nxt < len(hist["ops"]) else "start"
+                key = "map:%s:during-%s" % ("crash:signal-%d" % -res["rc"] if res["rc"] < 0 and res["rc"] != -9 else "timeout" if res["rc"] == -9 else "exit-%d" % res["rc"], opn)
+                if "pred" in hist:
+                    key += ":equal[%s]-table:%s-key" % (hist["pred"], hist["insts"][0][0].kind)
+                else:
+                    key += ":%s-table" % hist["eqv"]
             if "k" in ev and isinstance(ev["k"], int) and 0 < ev["k"] <= len(hist["insts"]) and tag.startswith(KEYED_TAGS):
                 kterm, kri = hist["insts"][ev["k"] - 1]
-                key += ":%s-table:%s-key" % (hist["eqv"], kterm.kind)
+                key += ":%s-table:%s-key" % (hist["eqv"] + ("[%s]" % hist["pred"] if "pred" in hist else ""), kterm.kind)
             f = findings.get(key)
             if f is None:
                 r2 = vlib.run_tlc("MapTrace.tla", "MapTrace.cfg", sc.path, env={"TRACE": res["trace"]}, workers=1, timeout=600, heap="3g")
@@ -851,6 +928,8 @@ def model_checking(chk, sc, out):
     try:
         r = vlib.run_tlc("Map.tla", "MapMC.cfg", sc.path, workers=4, coverage=True, timeout=600, heap="3g")
         out["map"] = r
+        r = vlib.run_tlc("EquivNestMC.tla", "EquivNestMC7.cfg" if chk.thorough else "EquivNestMC.cfg", sc.path, workers=4, timeout=900, heap="3g")
+        out["nest"] = r
         cfg = "EquivMCV.cfg" if chk.thorough else "EquivMC.cfg"
         r = vlib.run_tlc("EquivMC.tla", cfg, sc.path, workers=8 if chk.thorough else 4, timeout=1500, heap="3g")
         out["equiv"] = r
@@ -885,7 +964,7 @@ def run():
         chk.cov["phase_seconds"] = {"build": round(t1 - chk.t0, 1), "equiv": round(t2 - t1, 1), "map": round(t3 - t2, 1), "wait_for_mc": round(time.time() - t3, 1)}
         if "exc" in mc:
             raise mc["exc"]
-        for name, what in (("map", "MapMC"), ("equiv", "EquivMC")):
+        for name, what in (("map", "MapMC"), ("nest", "EquivNestMC"), ("equiv", "EquivMC")):
             r = mc[name]
             vlib.require_tlc_ok(r, what)
             if r.violated:
